@@ -957,6 +957,133 @@ func rootTerm(r *schema_j5pb.RootSchema, x bool) (string, error) {
 	return "", fmt.Errorf("root without a type")
 }
 
+// ---------------------------------------------------------------- what of schema.proto the export form covers
+
+const (
+	covDescend = iota // rendered member by member
+	covOpaque         // rendered as a token of the whole deterministic encoding
+	covKeyConst       // MapField.key_schema: must be the constant unconstrained string schema
+)
+
+func covSet(mode int, names ...string) map[string]int {
+	m := map[string]int{}
+	for _, n := range names {
+		m[n] = mode
+	}
+	return m
+}
+
+func covMerge(ms ...map[string]int) map[string]int {
+	out := map[string]int{}
+	for _, m := range ms {
+		for k, v := range m {
+			out[k] = v
+		}
+	}
+	return out
+}
+
+var bounds4 = covSet(covDescend, "minimum", "maximum", "exclusive_minimum", "exclusive_maximum")
+
+// exportCovered lists, per message of j5.schema.v1, the fields RootTerm renders (and so the Coq export
+// form carries). A populated field outside this table is invisible to the model.
+var exportCovered = map[string]map[string]int{
+	"j5.schema.v1.RootSchema":            covSet(covDescend, "oneof", "object", "enum"),
+	"j5.schema.v1.Object":                covSet(covDescend, "name", "description", "entity", "properties", "any_member"),
+	"j5.schema.v1.EntityObject":          covSet(covDescend, "entity", "part"),
+	"j5.schema.v1.Oneof":                 covSet(covDescend, "name", "description", "properties"),
+	"j5.schema.v1.Enum":                  covSet(covDescend, "name", "description", "prefix", "options", "info"),
+	"j5.schema.v1.Enum.Option":           covSet(covDescend, "name", "number", "description", "info"),
+	"j5.schema.v1.Enum.OptionInfoField":  covSet(covDescend, "name", "label", "description"),
+	"j5.schema.v1.ObjectProperty":        covSet(covDescend, "schema", "name", "required", "explicitly_optional", "description", "proto_field"),
+	"j5.schema.v1.Field":                 covSet(covDescend, "any", "oneof", "object", "enum", "array", "map", "string", "integer", "float", "bool", "bytes", "decimal", "date", "timestamp", "key"),
+	"j5.schema.v1.Ref":                   covSet(covDescend, "package", "schema"),
+	"j5.schema.v1.AnyField":              covMerge(covSet(covDescend, "only_defined", "types"), covSet(covOpaque, "list_rules")),
+	"j5.schema.v1.ObjectField":           covMerge(covSet(covDescend, "ref", "flatten"), covSet(covOpaque, "rules", "ext")),
+	"j5.schema.v1.OneofField":            covMerge(covSet(covDescend, "ref"), covSet(covOpaque, "rules", "list_rules", "ext")),
+	"j5.schema.v1.EnumField":             covMerge(covSet(covDescend, "ref", "rules"), covSet(covOpaque, "list_rules", "ext")),
+	"j5.schema.v1.EnumField.Rules":       covSet(covDescend, "in", "not_in"),
+	"j5.schema.v1.ArrayField":            covSet(covDescend, "rules", "items", "ext"),
+	"j5.schema.v1.ArrayField.Rules":      covSet(covDescend, "min_items", "max_items", "unique_items"),
+	"j5.schema.v1.ArrayField.Ext":        covSet(covDescend, "single_form"),
+	"j5.schema.v1.MapField":              covMerge(covSet(covDescend, "item_schema", "rules", "ext"), covSet(covKeyConst, "key_schema")),
+	"j5.schema.v1.MapField.Rules":        covSet(covDescend, "min_pairs", "max_pairs"),
+	"j5.schema.v1.MapField.Ext":          covSet(covDescend, "single_form"),
+	"j5.schema.v1.StringField":           covMerge(covSet(covDescend, "format", "rules"), covSet(covOpaque, "list_rules")),
+	"j5.schema.v1.StringField.Rules":     covSet(covDescend, "pattern", "min_length", "max_length"),
+	"j5.schema.v1.FloatField":            covMerge(covSet(covDescend, "format", "rules"), covSet(covOpaque, "list_rules")),
+	"j5.schema.v1.FloatField.Rules":      bounds4,
+	"j5.schema.v1.IntegerField":          covMerge(covSet(covDescend, "format", "rules"), covSet(covOpaque, "list_rules")),
+	"j5.schema.v1.IntegerField.Rules":    bounds4,
+	"j5.schema.v1.BoolField":             covMerge(covSet(covDescend, "rules"), covSet(covOpaque, "list_rules")),
+	"j5.schema.v1.BoolField.Rules":       covSet(covDescend, "const"),
+	"j5.schema.v1.BytesField":            covSet(covDescend, "rules"),
+	"j5.schema.v1.BytesField.Rules":      covSet(covDescend, "min_length", "max_length"),
+	"j5.schema.v1.DecimalField":          covMerge(covSet(covDescend, "rules"), covSet(covOpaque, "list_rules")),
+	"j5.schema.v1.DecimalField.Rules":    bounds4,
+	"j5.schema.v1.DateField":             covMerge(covSet(covDescend, "rules"), covSet(covOpaque, "list_rules")),
+	"j5.schema.v1.DateField.Rules":       bounds4,
+	"j5.schema.v1.TimestampField":        covMerge(covSet(covDescend, "rules"), covSet(covOpaque, "list_rules")),
+	"j5.schema.v1.TimestampField.Rules":  bounds4,
+	"j5.schema.v1.KeyField":              covMerge(covSet(covDescend, "format", "entity"), covSet(covOpaque, "list_rules")),
+	"j5.schema.v1.KeyFormat":             covSet(covDescend, "informal", "custom", "uuid", "id62"),
+	"j5.schema.v1.KeyFormat.Custom":      covSet(covDescend, "pattern"),
+	"j5.schema.v1.KeyFormat.Informal":    {},
+	"j5.schema.v1.KeyFormat.UUID":        {},
+	"j5.schema.v1.KeyFormat.ID62":        {},
+	"j5.schema.v1.EntityKey":             covMerge(covSet(covDescend, "primary_key", "tenant_key"), covSet(covOpaque, "foreign_key")),
+}
+
+// ExportCoverage walks an exported schema and returns every populated field of a j5.schema.v1 message
+// that the Coq export form does not carry (sorted, each once), e.g. "j5.schema.v1.IntegerField.Rules.multiple_of".
+func ExportCoverage(m proto.Message) []string {
+	seen := map[string]bool{}
+	var walk func(msg protoreflect.Message)
+	walk = func(msg protoreflect.Message) {
+		md := msg.Descriptor()
+		if md.ParentFile().Package() != "j5.schema.v1" {
+			return
+		}
+		allowed, known := exportCovered[string(md.FullName())]
+		msg.Range(func(fd protoreflect.FieldDescriptor, v protoreflect.Value) bool {
+			name := string(fd.Name())
+			mode, ok := allowed[name]
+			if !known || !ok {
+				seen[string(md.FullName())+"."+name] = true
+				return true
+			}
+			switch mode {
+			case covOpaque:
+			case covKeyConst:
+				want := &schema_j5pb.Field{Type: &schema_j5pb.Field_String_{}}
+				got, _ := v.Message().Interface().(*schema_j5pb.Field)
+				if got == nil || !(proto.Equal(got, want) || proto.Equal(got, &schema_j5pb.Field{Type: &schema_j5pb.Field_String_{String_: &schema_j5pb.StringField{}}})) {
+					seen[string(md.FullName())+"."+name+" (not the constant string schema)"] = true
+				}
+			default:
+				switch {
+				case fd.IsMap():
+				case fd.IsList() && fd.Message() != nil:
+					l := v.List()
+					for i := 0; i < l.Len(); i++ {
+						walk(l.Get(i).Message())
+					}
+				case fd.Message() != nil:
+					walk(v.Message())
+				}
+			}
+			return true
+		})
+	}
+	walk(m.ProtoReflect())
+	var out []string
+	for k := range seen {
+		out = append(out, k)
+	}
+	sort.Strings(out)
+	return out
+}
+
 // APITerm renders the packages of a source_j5pb.API as a Coq [xapi] (coq/model/ExportApi.v): packages in
 // the order of the API, schema maps sorted by name.
 func APITerm(api *source_j5pb.API) (string, error) {
